@@ -95,7 +95,17 @@ func (h history) shape() string {
 
 var variants = clus.PinAlphabet()
 
-func cidOf(i int) cid.Cid { return clus.Cid(fmt.Sprintf("c%d", i)) }
+// cidOf: c0 and c1 are unrelated CIDs (v1, raw); c2 and c3 are other CIDs of
+// c0's multihash (CIDv0; v1 dag-pb): distinct CIDs are distinct entries.
+func cidOf(i int) cid.Cid {
+	switch i {
+	case 2:
+		return clus.CidV0("c0")
+	case 3:
+		return cid.NewCidV1(cid.DagProtobuf, clus.Cid("c0").Hash())
+	}
+	return clus.Cid(fmt.Sprintf("c%d", i))
+}
 
 func opAlphabet(nvar int, roles []string) []op {
 	var out []op
@@ -227,6 +237,22 @@ func enumerate() []history {
 			{3, 1, 2, full3}, {3, 2, 1, full3}, {3, 3, 1, collide("L", "F")}, {3, 2, 2, collide("L")}, {3, 4, 1, collide("L")},
 		}
 	}
+	// (C) CIDs that share a multihash (same content addressed as CIDv0, as
+	// v1/raw and as v1/dag-pb): complete for its alphabet and lengths
+	alias := func(roles ...string) []op {
+		var out []op
+		for _, r := range roles {
+			for _, c := range []int{0, 2, 3} {
+				out = append(out, op{"pin", c % 2, c, r}, op{"unpin", 0, c, r})
+			}
+		}
+		return out
+	}
+	if !th {
+		blocks = append(blocks, block{1, 2, 1, alias("L")}, block{3, 2, 0, alias("L")})
+	} else {
+		blocks = append(blocks, block{1, 2, 1, alias("L")}, block{1, 3, 1, alias("L")}, block{3, 2, 1, alias("L", "F")})
+	}
 	seen := map[string]bool{}
 	add := func(h history) {
 		k := h.String()
@@ -239,6 +265,9 @@ func enumerate() []history {
 		for _, s := range seqs(b.alpha, b.l) {
 			add(history{N: b.n, Ops: s})
 			ds := devsFor(b.n, b.l, th)
+			if b.maxDev == 0 {
+				ds = nil
+			}
 			for i, d := range ds {
 				add(history{N: b.n, Ops: s, Devs: []dev{d}})
 				if b.maxDev >= 2 {
@@ -975,7 +1004,13 @@ func keyCtx(h history) string {
 	if len(d) == 0 {
 		d = []string{"nodev"}
 	}
-	return "variants=" + strings.Join(v, ",") + "|" + strings.Join(d, "+")
+	al := ""
+	for _, o := range h.Ops {
+		if o.C >= 2 {
+			al = "|cids-sharing-a-multihash"
+		}
+	}
+	return "variants=" + strings.Join(v, ",") + "|" + strings.Join(d, "+") + al
 }
 
 func replay(t *testing.T, path string, hs []history) {
